@@ -266,23 +266,21 @@ func routesTemplates() []tmpl {
 
 // ---------------------------------------------------------------------------------- reduction
 
-// nameOf rebuilds the template name from a family and a dimension vector ("" if none).
-func nameOf(family string, d []int) string {
+// nameOf gives the template at a position of a family's product ("" if that combination is not enumerated).
+func nameOf(family string, d []int) string { return dimIndex[family+fmt.Sprint(d)] }
+
+// reducible dimensions per family: the carrier (carry dim 0) / the callee (args dim 0) is what a
+// finding is about and has no "simpler" value, capture templates are each a feature of their own;
+// every other dimension is ordered from simplest (index 0) upwards.
+func reducible(family string, dim int) bool {
 	switch family {
 	case "routes":
-		return routesName(d[0], d[1], d[2], d[3], d[4])
-	case "carry":
-		if d[0] < len(callables) {
-			return "carry:" + callables[d[0]].Name + "/" + callRoutes[d[1]].Name
-		}
-		return "carry:" + holders[d[0]-len(callables)].Name + "/-"
+		return true
+	case "carry", "args":
+		return dim == 1
 	}
-	return ""
+	return false
 }
-
-// reducible dimensions per family: the carrier itself (carry dim 0) is what a finding is about and
-// has no "simpler" value; every other dimension is ordered from simplest (index 0) upwards.
-func reducible(family string, dim int) bool { return !(family == "carry" && dim == 0) }
 
 // reduceTemplate lowers every reducible dimension of a failing template as far as the lowered
 // template is in the failing set too (greedy, deterministic, to a fixpoint).
